@@ -13,7 +13,7 @@ PID = "C20"
 ANCHORS = ["experimental/datasets.py:NormalDataset.from_metrics", "experimental/datasets.py:NormalDataset.sample", "experimental/datasets.py:NormalDataset.roc",
            "experimental/datasets.py:NormalDataset.threshold_at_fnr", "experimental/datasets.py:NormalDataset.threshold_at_fpr", "experimental/datasets.py:NormalDataset.fnr",
            "experimental/datasets.py:NormalDataset.fpr", "experimental/datasets.py:BernoulliDataset.sample", "experimental/datasets.py:CorrelatedBernoullilDataset.sample"]
-DECIDING = {"R-data": 40000}
+DECIDING = {"R-data": 30000}
 RULE = (
     "R-data per parameter set. NormalDataset: fnr(threshold_at_fnr(r)) == r and fpr(threshold_at_fpr(r)) == r (rtol 1e-9, r in (1e-6,1-1e-6)), "
     "threshold_at_*(rate(t)) == t where the rate is away from 0/1; both rates agree with an independent NormalDist reference; fnr increasing and "
